@@ -1,26 +1,63 @@
 /-
 The termination protocol of tea.go / tty.go / standard_renderer.go as a labelled
-transition system (C04, C13, signal part of C18): the event loop with its
-callbacks, the command dispatcher, the handler goroutines shutdown waits for
-(signal handler, resize listener, Init hand-over), the read loop, the
-renderer's listen goroutine and stop handshake, every caller of shutdown (Run's
-own tail, Kill() / panic handlers on other goroutines), and any number of API
-callers blocked in Send (Send, Quit, Println, Printf all go through Send) or in
-Wait.
+transition system (C04, C13, signal part of C18): Run's START-UP PHASE, the event
+loop with its callbacks, the command dispatcher, the handler goroutines shutdown
+waits for (signal handler, resize listener, Init hand-over), the read loop, the
+renderer's listen goroutine with its `listening` flag and the halt handshake, every
+caller of shutdown (Run's own tail, Kill() / panic handlers on other goroutines),
+and any number of API callers blocked in Send (Send, Quit, Println, Printf all go
+through Send) or in Wait.
+
+START-UP.  The model begins when Run has just been entered (`init0 c`): no goroutine
+has been spawned, the renderer has not been created, its listen goroutine has not
+been started.  `RunPc.starting p` says which stage Run "is about to do / is inside"
+(`StartPc`, in the order of tea.go, frozen as the source fact `order_Program_Run`):
+
+    sigHandler     about to spawn the signal handler goroutine (if one is wanted)
+    newRenderer    about to create the renderer (`p.renderer = newRenderer(..)`)
+    modeWrites     INSIDE initTerminal / the start-up mode sequences (setWindowTitle,
+                   enterAltScreen, enableBracketedPaste, enableMouse.., enableReportFocus):
+                   writes to the USER'S output writer; initTerminal may fail
+    startRenderer  about to call `p.renderer.start()`
+    initCall       INSIDE `model.Init()` (user code, may panic)
+    spawnInit      about to spawn the goroutine that hands Init's command over
+    firstView      INSIDE the first `model.View()` (user code, may panic)
+    openReader     about to open the cancel reader and spawn the read loop (may fail)
+    spawnHandlers  about to spawn the resize listener and the command dispatcher and to
+                   enter the event loop
+
+The internal steps of Run (`suSigHandler` .. `suSpawnHandlers`) are lifecycle labels, each
+enabled only at its stage; user code / faults of the start-up are EXTERNAL labels
+(`startWriterReturns`, `startTermFails`, `initReturns`, `initPanics`, `firstViewReturns`,
+`firstViewPanics`, `startReaderFails`).  `killCall`, `parentCancel`, `sendCall`, `waitCall`
+and `signal` are enabled at every stage: a Kill() can arrive at any point of the start-up.
+`init c` is the state in which the event loop begins when nothing has struck; it is reached
+from `init0 c` by the fault-free schedule `startupSchedule` (`startup_reaches_loop`).
+
+THE RENDERER'S HALT.  `listen = notStarted | idle | flushing | stopped` is the listen
+goroutine together with the flag `listening` (`listening = true` iff `idle` or `flushing`).
+`shRenderer` is `halt()`: nothing when the renderer has not been created (`p.renderer ==
+nil`) or is not listening (not started yet, or already halted); otherwise the hand-over on
+the unbuffered `done` channel, which completes only when the listen goroutine is not
+inside the user's writer.
 
 User code is a state a goroutine leaves only by an EXTERNAL label
-(`callbackReturns`, `viewReturns`, `writerReturns`): the theorems say that once
-termination has begun and no user callback is in progress, internal
-("lifecycle") steps alone bring Run to its return.
+(`callbackReturns`, `viewReturns`, `writerReturns`, `startWriterReturns`, `initReturns`,
+`firstViewReturns`): the theorems say that once termination has begun and no user
+callback is in progress, internal ("lifecycle") steps alone bring Run to its return -
+during the start-up: together with the returns of the start-up's own user code.
 
 Every blocking operation of the package appears here as a transition guarded
 the way the source guards it; the inventory of those operations and guards is
 the extracted fact set (`sends`, `recvs`, `closes`, `ctxchecks`, `order_*`),
 compared with its frozen expectation by the bridge module of C04 / C13.
 
-Not modelled (limits): Kill() before the renderer has been started; a reader
-whose Cancel() claims success but whose Read never returns is covered by the
-500 ms timeout transition `shWaitReadTimeout`.
+Not modelled (limits): the input selection at the very beginning of Run (it may open
+/dev/tty and fail: Run returns before anything exists); the data race on `p.handlers`
+between Run's appends (`handlers.add`) and the iteration of a concurrent Kill()'s
+`handlers.shutdown()` - a killer's `shHandlers` waits for the handlers that exist at that
+moment; a reader whose Cancel() claims success but whose Read never returns is covered by
+the 500 ms timeout transition `shWaitReadTimeout`.
 -/
 namespace Tea.Runtime.Life
 
@@ -31,10 +68,11 @@ inductive Cause where
 
 /-- the class of error Run returns -/
 inductive ErrClass where
-  | nil | interrupted | killed | reader
+  | nil | interrupted | killed | reader | startup
   deriving DecidableEq, Repr
 
 inductive ElPc where
+  | notStarted          -- Run is still starting up: the event loop has not begun
   | select
   | callback            -- filter / Update in progress (user code)
   | cmdSend             -- `select { case <-ctx.Done(): ; case cmds <- cmd: }`
@@ -56,9 +94,11 @@ inductive ReadPc where
   | absent | reading | sendingMsg | sendingErr | exited
   deriving DecidableEq, Repr
 
-/-- the renderer's listen goroutine; `flushing` = inside the user's output writer -/
+/-- the renderer's listen goroutine and its `listening` flag: `notStarted` = `start()` has not been
+called (`listening = false`), `idle` / `flushing` = running (`listening = true`), `flushing` = inside
+the user's output writer, `stopped` = halted (`listening = false` again) -/
 inductive ListenPc where
-  | idle | flushing | stopped
+  | notStarted | idle | flushing | stopped
   deriving DecidableEq, Repr
 
 /-- progress of one call of `shutdown(kill)` -/
@@ -66,8 +106,14 @@ inductive ShPhase where
   | cancel | waitHandlers | reader | waitRead | renderer | restore | done
   deriving DecidableEq, Repr
 
+/-- the stages of Run's start-up: "Run is about to do / is inside ..." -/
+inductive StartPc where
+  | sigHandler | newRenderer | modeWrites | startRenderer | initCall | spawnInit | firstView
+  | openReader | spawnHandlers
+  deriving DecidableEq, Repr
+
 inductive RunPc where
-  | loop | tail | returned
+  | starting (p : StartPc) | loop | tail | returned
   deriving DecidableEq, Repr
 
 /-- what a blocked Send carries -/
@@ -87,6 +133,10 @@ structure Caller where
 structure St where
   cancelable : Bool                 -- the input reader's Cancel() works (file input) or not (fallback)
   ignoreSignals : Bool := false
+  withSignalHandler : Bool := true  -- the configuration, read by the start-up steps
+  withResize : Bool := true
+  withInitCmd : Bool := false
+  withInput : Bool := true
   ctxDone : Bool := false
   el : ElPc := .select
   dispAlive : Bool := true
@@ -96,7 +146,8 @@ structure St where
   reader : ReadPc := .reading
   readerCancelRequested : Bool := false
   listen : ListenPc := .idle
-  onceDone : Bool := false
+  rendererMade : Bool := true       -- `p.renderer != nil`
+  modesDirty : Bool := true         -- mode sequences were written after the last restore
   runPc : RunPc := .loop
   runSh : ShPhase := .cancel
   runKill : Bool := false
@@ -113,6 +164,11 @@ inductive Label where
   | callbackReturns | callbackPanics | viewReturns | viewPanics | writerReturns | tick
   | signal (int : Bool) | decoded | readError | readEOF
   | sendCall (i : Nat) | waitCall (i : Nat) | killCall | parentCancel
+  -- external, start-up: the user's writer / Init / the first View return or fail
+  | startWriterReturns | startTermFails | initReturns | initPanics | firstViewReturns | firstViewPanics
+  | startReaderFails
+  -- lifecycle: internal steps of Run's start-up
+  | suSigHandler | suNewRenderer | suStartRenderer | suSpawnInit | suOpenReader | suSpawnHandlers
   -- lifecycle: internal steps of the runtime
   | elRecvSender (i : Nat) | elRecvSig | elRecvReader | elRecvErr | elCtxExit
   | elCmdHandOver | elCmdAbort
@@ -132,7 +188,9 @@ inductive Label where
 
 def Label.isLifecycle : Label → Bool
   | .callbackReturns | .callbackPanics | .viewReturns | .viewPanics | .writerReturns | .tick
-  | .signal _ | .decoded | .readError | .readEOF | .sendCall _ | .waitCall _ | .killCall | .parentCancel => false
+  | .signal _ | .decoded | .readError | .readEOF | .sendCall _ | .waitCall _ | .killCall | .parentCancel
+  | .startWriterReturns | .startTermFails | .initReturns | .initPanics | .firstViewReturns | .firstViewPanics
+  | .startReaderFails => false
   | _ => true
 
 def handlerGone : HPc → Bool
@@ -193,6 +251,55 @@ def step (s : St) : Label → Option St
     | _ => none
   | .killCall => some { s with killers := s.killers ++ [.cancel] }
   | .parentCancel => some { s with ctxDone := true }
+  -- ---------------------------------------------------------------- external, start-up
+  | .startWriterReturns =>
+    if s.runPc = .starting .modeWrites then some { s with modesDirty := true, runPc := .starting .startRenderer }
+    else none
+  | .startTermFails =>       -- initTerminal failed: Run returns WITHOUT shutdown (deferred cancel, close(finished))
+    if s.runPc = .starting .modeWrites then
+      some { s with runPc := .returned, ctxDone := true, finishedClosed := true, runErr := .startup }
+    else none
+  | .initReturns => if s.runPc = .starting .initCall then some { s with runPc := .starting .spawnInit } else none
+  | .initPanics =>           -- recovered by Run's deferred handler: shutdown(true), ErrProgramKilled
+    if s.runPc = .starting .initCall then
+      some { s with runPc := .tail, runSh := .cancel, runKill := true, runErr := .killed }
+    else none
+  | .firstViewReturns =>
+    if s.runPc = .starting .firstView then some { s with runPc := .starting .openReader } else none
+  | .firstViewPanics =>
+    if s.runPc = .starting .firstView then
+      some { s with runPc := .tail, runSh := .cancel, runKill := true, runErr := .killed }
+    else none
+  | .startReaderFails =>     -- initCancelReader failed: shutdown(true), the error is returned
+    if s.runPc = .starting .openReader ∧ s.withInput = true then
+      some { s with runPc := .tail, runSh := .cancel, runKill := true, runErr := .startup }
+    else none
+  -- ---------------------------------------------------------------- Run's start-up
+  | .suSigHandler =>
+    if s.runPc = .starting .sigHandler then
+      some { s with sig := if s.withSignalHandler = true then .waiting else s.sig,
+                    runPc := .starting .newRenderer }
+    else none
+  | .suNewRenderer =>        -- afterwards Run is inside initTerminal / the mode sequences (user's writer)
+    if s.runPc = .starting .newRenderer then some { s with rendererMade := true, runPc := .starting .modeWrites }
+    else none
+  | .suStartRenderer =>      -- `start()`: nothing if already listening; afterwards Run is inside Init
+    if s.runPc = .starting .startRenderer then
+      some { s with listen := if s.listen = .notStarted then .idle else s.listen, runPc := .starting .initCall }
+    else none
+  | .suSpawnInit =>          -- afterwards Run is inside the first View
+    if s.runPc = .starting .spawnInit then
+      some { s with initG := if s.withInitCmd = true then .waiting else s.initG, runPc := .starting .firstView }
+    else none
+  | .suOpenReader =>
+    if s.runPc = .starting .openReader then
+      some { s with reader := if s.withInput = true then .reading else s.reader, runPc := .starting .spawnHandlers }
+    else none
+  | .suSpawnHandlers =>      -- enters the event loop (which has not begun: always so at this stage, `InvStart`)
+    if s.runPc = .starting .spawnHandlers ∧ s.el = .notStarted then
+      some { s with resize := if s.withResize = true then .waiting else s.resize, dispAlive := true,
+                    el := .select, runPc := .loop }
+    else none
   -- ---------------------------------------------------------------- event loop
   | .elRecvSender i =>
     match s.senders[i]? with
@@ -264,14 +371,18 @@ def step (s : St) : Label → Option St
     if phaseOf s who = some .waitRead ∧ s.reader = .exited then some (setPhase s who .renderer) else none
   | .shWaitReadTimeout who =>
     if phaseOf s who = some .waitRead then some (setPhase s who .renderer) else none
-  | .shRenderer who =>
+  | .shRenderer who =>       -- `if p.renderer != nil { halt(); .. }`
     if phaseOf s who = some .renderer then
-      if s.onceDone = true then some (setPhase s who .restore)
-      else if s.listen = .idle then some { setPhase s who .restore with onceDone := true, listen := .stopped }
-      else none
+      if s.rendererMade = false then some (setPhase s who .restore)
+      else match s.listen with
+        | .notStarted | .stopped => some (setPhase s who .restore)      -- halt finds `listening = false`
+        | .idle => some { setPhase s who .restore with listen := .stopped }
+        | .flushing => none                                             -- the hand-over waits for the user's writer
     else none
   | .shRestore who =>
-    if phaseOf s who = some .restore then some { setPhase s who .done with restores := s.restores + 1 } else none
+    if phaseOf s who = some .restore then
+      some { setPhase s who .done with restores := s.restores + 1, modesDirty := false }
+    else none
   | .runReturn =>
     if s.runPc = .tail ∧ s.runSh = .done then some { s with runPc := .returned, finishedClosed := true } else none
 
@@ -286,17 +397,37 @@ structure Config where
   senders : List SendKind
   waiters : Nat
 
+/-- Run has just been entered: nothing has been spawned, created or started -/
+def init0 (c : Config) : St :=
+  { cancelable := c.cancelable, ignoreSignals := c.ignoreSignals,
+    withSignalHandler := c.withSignalHandler, withResize := c.withResize,
+    withInitCmd := c.withInitCmd, withInput := c.withInput,
+    el := .notStarted, dispAlive := false,
+    sig := .absent, resize := .absent, initG := .absent, reader := .absent,
+    listen := .notStarted, rendererMade := false, modesDirty := false,
+    runPc := .starting .sigHandler,
+    senders := c.senders.map (fun k => { kind := k }),
+    waiters := List.replicate c.waiters .notCalled }
+
+/-- the event loop begins and nothing has struck during the start-up: the handlers are running,
+the renderer is listening, the start-up mode sequences have been written -/
 def init (c : Config) : St :=
   { cancelable := c.cancelable, ignoreSignals := c.ignoreSignals,
+    withSignalHandler := c.withSignalHandler, withResize := c.withResize,
+    withInitCmd := c.withInitCmd, withInput := c.withInput,
+    el := .select, dispAlive := true,
     sig := if c.withSignalHandler then .waiting else .absent,
     resize := if c.withResize then .waiting else .absent,
     initG := if c.withInitCmd then .waiting else .absent,
     reader := if c.withInput then .reading else .absent,
+    listen := .idle, rendererMade := true, modesDirty := true,
+    runPc := .loop,
     senders := c.senders.map (fun k => { kind := k }),
     waiters := List.replicate c.waiters .notCalled }
 
+/-- every state of every schedule, from the moment Run is entered -/
 inductive Reachable (c : Config) : St → Prop where
-  | init : Reachable c (init c)
+  | init0 : Reachable c (init0 c)
   | step {s s' : St} (l : Label) : Reachable c s → step s l = some s' → Reachable c s'
 
 def runLabels (s : St) : List Label → Option St
@@ -305,12 +436,22 @@ def runLabels (s : St) : List Label → Option St
     | some s' => runLabels s' ls
     | none => none
 
-/-- termination has begun -/
-def Terminating (s : St) : Prop :=
-  s.ctxDone = true ∨ (∃ c, s.el = .exited c) ∨ s.killers ≠ []
+/-- the fault-free start-up: every stage in turn, the user's writer, Init and the first View return -/
+def startupSchedule : List Label :=
+  [.suSigHandler, .suNewRenderer, .startWriterReturns, .suStartRenderer, .initReturns, .suSpawnInit,
+   .firstViewReturns, .suOpenReader, .suSpawnHandlers]
 
-/-- no user code is in progress on a goroutine the shutdown depends on -/
+/-- termination has begun: the context is cancelled, or the loop has exited, or a shutdown caller
+on another goroutine exists, or Run is past its loop / its start-up (after a start-up failure or a
+start-up panic Run is in its tail without any of the former) -/
+def Terminating (s : St) : Prop :=
+  s.ctxDone = true ∨ (∃ c, s.el = .exited c) ∨ s.killers ≠ [] ∨ s.runPc = .tail ∨ s.runPc = .returned
+
+/-- no user code is in progress on a goroutine the shutdown depends on: the loop is not inside
+filter / Update / View, the listen goroutine is not inside the user's writer, and Run is not inside
+the user code of its start-up (the writer of the mode sequences, Init, the first View) -/
 def NoCallback (s : St) : Prop :=
-  s.el ≠ .callback ∧ s.el ≠ .view ∧ s.listen ≠ .flushing
+  s.el ≠ .callback ∧ s.el ≠ .view ∧ s.listen ≠ .flushing ∧
+  s.runPc ≠ .starting .modeWrites ∧ s.runPc ≠ .starting .initCall ∧ s.runPc ≠ .starting .firstView
 
 end Tea.Runtime.Life
